@@ -13,7 +13,7 @@ m = {
     "hooks": {
         "guard": "--cfg datafusion_verif",
         "enable": "RUSTFLAGS='--cfg datafusion_verif' via /verif/.cargo/config.toml ([build] rustflags); checks depend on the /repo crates by path so every build uses /repo's working tree",
-        "baseline_off_cmd": "cd /repo && cargo nextest run --workspace --no-fail-fast --test-threads 8 --offline || cargo test --workspace --no-fail-fast --offline",
+        "baseline_off_cmd": "cd /repo && cargo nextest run --workspace --no-fail-fast --tool-config-file pb:/w/lib/nextest.toml --profile pb --test-threads 8 --offline  (fallback: cargo test --workspace --no-fail-fast --offline)  # no RUSTFLAGS: the guard --cfg datafusion_verif is only set by /verif/.cargo/config.toml",
         "source_commits": [l.split()[0] for l in reversed(hook_commits)],
         "add_only": True,
     },
@@ -25,7 +25,7 @@ m = {
     ],
     "checks": [],
     "not_applicable": [],
-    "notes": "Single entry point ./check <id> [--tier quick|thorough] [--replay FILE]. Exit 2 = machinery error (never a verdict). known_findings.json lists recorded genuine defects; DESIGN.md explains every check.",
+    "notes": "Single entry point ./check <id> [--tier quick|thorough] [--replay FILE] (a property may have several parts whose evidence is merged). Exit 2 = machinery error (never a verdict). known_findings.json: `known` = recorded genuine defects keyed by failing case / root-cause class (printed as KNOWN-FINDING lines), `fixed` = repaired by fix: commits in /repo (suppresses nothing). findings/README.md describes every defect, DETECTION.md the detection demonstrations (planted mutants, independently seeded changes under seeded/), DESIGN.md section 0 what was built. tools/final_run.sh = setup + every quick check + manifest + schema validation.",
 }
 for e in m["engines"]:
     e["serves_properties"] = sorted(p for p, c in checks.items() if c.get("engine") == e["name"])
